@@ -319,10 +319,13 @@ func buildDataset(c *fw.Ctx, o dsOpts) *dataset {
 
 // storageRaceSig attributes a race report to the storage/scan state the snapshot and
 // flush-independence properties depend on: one side in the ingest/flush path, the other in a scan.
+// (A scan's top frame (*rowStore).iterate alone is not a marker: the only race it adds on the unchanged tree is the one
+// between memstore.copy reading the bookkeeping flag offsetChanged and the flush closure clearing it, a flag no scan
+// ever looks at; that report stays listed under race_reports_not_attributed.)
 func storageRaceSig(report string) string {
 	has := func(s string) bool { return strings.Contains(report, s) }
 	ingest := has("bytetree.(*node).doUpdate") || has("bytetree.(*Tree).Update") || has("encoding.Sequence.UpdateValue") || has("(*rowStore).processInserts") || has("expr.(*aggregate).Update") || has("expr.(*aggregate).save")
-	scan := has("(*fileStore).iterate") || has("(*rowStore).iterate") || has("core.(*flatten).Iterate") || has("encoding.Sequence.ValueAt") || has("bytetree.(*Tree).Walk") || has("bytetree.(*Tree).Copy") || has("encoding.Sequence.Merge") || has("rowMerger") || has("expr.(*aggregate).load")
+	scan := has("(*fileStore).iterate") || has("core.(*flatten).Iterate") || has("encoding.Sequence.ValueAt") || has("bytetree.(*Tree).Walk") || has("bytetree.(*Tree).Copy") || has("encoding.Sequence.Merge") || has("rowMerger") || has("expr.(*aggregate).load")
 	if ingest && scan {
 		return "ingest-vs-scan:" + shortRaceKey(report)
 	}
